@@ -18,6 +18,7 @@ import os
 import re
 import shutil
 import subprocess
+import sys
 import tempfile
 import threading
 
@@ -34,7 +35,7 @@ def _sh(cmd):
     return p.returncode, p.stdout.decode(errors="replace")
 
 
-def _fp_sites(obl):
+def _fp_sites(obl, rules):
     """Build the obligation's goto binary once (private temp dir), let
     goto-instrument label the function-pointer call sites and return
     [(label, member name of the called pointer)]."""
@@ -66,11 +67,26 @@ def _fp_sites(obl):
                 raise RuntimeError("C07 fp-site scan: --replace-calls failed:\n%s" % out[-2000:])
             linked = rep
         lab = os.path.join(d, "lab.gb")
-        # any one restriction makes goto-instrument label every site
-        rc, out = _sh(["goto-instrument", "--restrict-function-pointer",
-                       "ldb_iter_clear.function_pointer_call.1/ldb_free", linked, lab])
+        # goto-instrument labels the call sites only when it is given at least
+        # one restriction: find one site in the unlabelled listing (first
+        # pointer call of some function = <function>.function_pointer_call.1)
+        rc, out = _sh(["goto-instrument", "--show-goto-functions", linked])
+        first = None
+        fname = None
+        for line in out.splitlines():
+            m = re.match(r"^(\S+) /\* .* \*/$", line)
+            if m:
+                fname = m.group(1)
+                continue
+            m = re.search(r"CALL (?:\S+ := )?\*.*?([A-Za-z_][A-Za-z_0-9]*)\)\(", line)
+            if m and fname and rules.get(m.group(1)):
+                first = "%s.function_pointer_call.1/%s" % (fname, rules[m.group(1)])
+                break
+        if first is None:
+            return []
+        rc, out = _sh(["goto-instrument", "--restrict-function-pointer", first, linked, lab])
         if rc != 0 or not os.path.exists(lab):
-            raise RuntimeError("C07 fp-site scan: labelling failed:\n%s" % out[-2000:])
+            raise RuntimeError("C07 fp-site scan: labelling failed (%s):\n%s" % (first, out[-2000:]))
         rc, out = _sh(["goto-instrument", "--show-goto-functions", lab])
         sites = []
         for m in re.finditer(r"ASSIGN (\S+\.function_pointer_call\.\d+) := (.*)", out):
@@ -106,10 +122,14 @@ class AutoObl(Obl):
                 rules["func"] = "vp_arr_noop_cleanup"
                 rules.update(self.fp_rules)
                 out = []
-                for label, member in _fp_sites(self):
-                    tgt = rules.get(member, "")
-                    if tgt:
-                        out.append("%s/%s" % (label, tgt))
+                try:
+                    for label, member in _fp_sites(self, rules):
+                        tgt = rules.get(member, "")
+                        if tgt:
+                            out.append("%s/%s" % (label, tgt))
+                except Exception as e:  # reported by goto-instrument as a build error of this obligation
+                    sys.stderr.write("[C07] %s: %s\n" % (self.name, e))
+                    out = ["c07_fp_site_scan_failed.function_pointer_call.1/ldb_free"]
                 ent["val"] = out
         self._fp_val = ent["val"]
         return self._fp_val
@@ -353,4 +373,37 @@ for (lens, ri, tier) in (((2, 2, 2), 2, "quick"), ((1, 2, 3), 1, "quick"), ((3, 
         desc="block.c iterator on a builder-produced block: full forward and full backward scans yield exactly the added entries, each once, in order / reverse order (CBMC pointer checks on)",
         bounds="%d entries, key lengths %s, restart interval %d" % (len(lens), "/".join(str(x) for x in lens), ri))
 
-META = {}
+META = {
+    "level": "model_checking",
+    "level_text": "Bounded model checking (CBMC 6.11) of lcdb's own iterator code, one layer per query: table/block.c (on blocks built by the real table/block_builder.c), the ldb_iter_seek_ge/gt/le/lt helpers of table/iterator.c, table/merger.c, table/two_level_iterator.c and db_iter.c, each over the array-iterator model kit/vp_arriter.c.  After every step of a short sequence of symbolically chosen operations (first/last/seek to a symbolic target/next/prev) validity, key, value and status are compared with an independent sorted-map cursor written in the harness (harness/C07/ref.h: positions defined as min/max over the entry set), for db_iter.c over the 'newest entry with sequence <= snapshot per user key, visible iff it is a value' fold; full forward and backward scans are separate obligations.  Counterexamples are replayed natively (gcc, ASan+UBSan) on the real code.",
+    "level_note": "Trusted: CBMC's semantics of the goto-cc translation; the kit models (vp_arriter child iterator; vp_alloc_c07: allocation never fails, growing buffers live in fixed static slabs so an overrun inside a slab is invisible to CBMC; byte-loop mem*; constant read-sampling period in place of util/random.c; vp_arr_iter_destroy in place of table/iterator.c's ldb_iter_destroy in the two-level multi-step queries); the function-pointer restriction (checked by CBMC at every call site); the composition argument that the layers, each correct against the sorted-map cursor over arbitrary well-formed children, compose to a correct DB iterator (not solver-checked: no query contains two real layers).  The multi-step obligations run with --no-standard-checks (CBMC's implicit pointer/bounds checks off, explicit overflow/shift checks on); the scan obligations, the seek helpers and property C18 keep them.  Sub-item f of DESIGN section 6 (ldb_internal_iterator pins memtables/version under the mutex; later writes, compactions and file deletions do not disturb a live iterator) is NOT covered here.",
+    "bounds": [
+        "b. seek helpers: 0..4 keys of 0..2 symbolic bytes, symbolic target (0..2 bytes), symbolic prior position, all four helpers",
+        "e. db_iter.c: 1..4 internal entries (quick; 5 thorough), 1-byte symbolic user keys, symbolic 56-bit sequence numbers and types, symbolic snapshot; 2-3 steps (4 thorough) per family A-R-R / A-R-A / A-A / any-any(-any) where A = first|last|seek(symbolic), R = next|prev; full scans 2..4 entries",
+        "c. merger.c: 2 children x <=2 entries in every interleaving (quick; 3x2 and 3 children thorough), concrete key ranks per interleaving (the unit only compares keys) plus one query with symbolic 1-byte keys; symbolic child statuses; 3 steps A-R-R / A-R-A (4 steps and any-any-any thorough); duplicate keys across children only for full scans",
+        "d. two_level_iterator.c: 2-3 blocks (4 in scans/thorough) of 0..1 entries (2 thorough), every block and the index with symbolic status, empty blocks at the start / middle / end / everywhere; concrete keys (the unit never compares keys; one scan query with symbolic keys), symbolic seek targets; 2-3 steps",
+        "a. block.c: 1..3 entries, key lengths 1..3 (symbolic bytes, all shared-prefix lengths), 1-byte symbolic values, restart interval 1..3, symbolic seek target of 0..3 bytes, 2 steps (3 thorough); full scans",
+    ],
+    "outside": [
+        "more than one real iterator layer per query (composition is prose)",
+        "pinning of memtables/versions/files by a live iterator (DESIGN 6 C07.f), iterators during concurrent writes/compactions",
+        "comparators other than bytewise / the internal-key order over bytewise",
+        "operation sequences longer than 4; R-A-R patterns only inside the any-any-any obligations",
+        "merger direction changes on keys duplicated across children (LevelDB itself skips the duplicates there)",
+        "corrupted blocks (property C18), keys/values longer than 3 bytes, more than 3 entries per block, 5 entries per db-iter child",
+    ],
+    "models": [
+        "kit/vp_arriter.c: child iterator over a sorted array (real ldb_itertbl_t v-table), contract checks on REQUIRES: valid()",
+        "kit/vp_alloc_c07.c: ldb_malloc never fails; ldb_realloc grows in place inside static 32/64-byte slabs; typed static array for merger's wrapper array",
+        "kit/vp_mem.c byte-loop memcpy/memcmp/memset; kit/vp_nondet.c symbolic inputs",
+        "harness stubs: ldb_record_read_sample (counter), ldb_rand_init/ldb_rand_uniform (constant period n/2) for db_iter.c",
+        "vp_arr_iter_destroy replaces ldb_iter_destroy (table/iterator.c) in the two-level multi-step queries; the two-level scan queries use the real one",
+    ],
+    "assumptions": [
+        "children are sorted strictly by their comparator; internal children have unique (user key, sequence) pairs",
+        "table invariants for the two-level iterator: keys of block j are <= separator j and > separator j-1, separators strictly increasing",
+        "keys given to the block builder are strictly increasing (its documented REQUIRES)",
+        "next()/prev() are only called while the iterator is valid (documented REQUIRES)",
+    ],
+    "explanation": "Each obligation is one CBMC query over the goto-cc translation of the real unit for one concrete size tuple; 'holds' means for every value of the symbolic inputs inside the stated bounds.",
+}
